@@ -160,6 +160,30 @@ CHECKS.update({
         note='float(text) == tabulated decimal is Python and not decided', ref='8'),
 })
 
+# Histories (DESIGN 10.13, 10.14): always two calls interpreted in one world (module-level tables, functools caches, decorator closures,
+# class attributes and rebound globals persist; objects that died give their id() back), compared with the second call in a fresh one.
+HISTORY_TEXT = {
+    'C01': ' No kernel writes its arguments (R8).',
+    'C02': ' The graph selected for a request does not depend on earlier requests: every (origin, target, scatter, mode) request after every other one, in one world (R6).',
+    'C03': ' Results do not depend on call history: two-call histories of the geometry kernels in one world - another kernel first, other units, the same variables updated in place by their owner, new variables holding the same values (R8).',
+    'C06': ' Event-data results do not depend on call history: every kernel after itself in binned interpretation with other units, another precision, the same variables updated in place, new variables with the same values (R7).',
+    'C07': ' Unit and dtype of a result do not depend on call history (two-call histories of the conversion kernels in one world: other units, other precision, both, another kernel first, the same variables updated in place: R6); 32-bit integers next to single precision are in the quick grid of the two-operand kernels.',
+    'C09': ' Histories in one world: a graph factory called again after the caller emptied and overwrote its first result hands out the graph of a fresh interpreter; a bundled-table lookup answers the same after any other lookup (R5).',
+    'C10': ' from_disk_chopper does not depend on the choppers expanded before: two-chopper histories in one world, the first chopper garbage when the second is made (its id() may be taken again) (R7).',
+    'C11': ' The source pulse rectangle is regular in every vertex order (R6).',
+    'C12': ' A file does not depend on the files written before it: two-file histories in one world, same byte order and block set, other sizes (R5).',
+    'C13': ' Run ids that are not the positions of the runs (counted down to 0, starting above 0) come back as supplied; reading does not depend on earlier reads: a second file of the same layout with other numbers written to the same path in the same world is read back as itself (R7).',
+    'C14': ' Builder sequences with saves in between (save, derive, save; the same builder twice) write what the builder holds now (R6); pairs given as a mapping, a list, a tuple or a one-shot iterator are written alike (R7).',
+    'C15': ' The same file loaded twice in one world gives the same table; 20-row tables; loadtxt handed an iterable of lines returns the rows it was handed.',
+    'C16': ' The refusal does not depend on what a sibling model of the same class and prefix was evaluated with before.',
+    'C17': ' The result for a spectrum does not depend on the spectra fitted before it: two fit_peaks calls in one world on one grid, the comparison fits programmed the other way round (R9).',
+    'C18': ' Two cylinders whose axes differ in the sign of a component, requested in one world, get the points of a fresh interpreter (R6).',
+    'C19': ' The plateaus found do not depend on earlier calls: the tolerance given as an integer and as the equal floating-point number, in another unit than the coordinate, in one world (R7).',
+    'C20': ' A lookup answers the same after any other lookup: two-lookup histories of ScatteringParams.for_isotope and Atom.for_isotope in one world (R7).',
+}
+for _pid, _extra in HISTORY_TEXT.items():
+    CHECKS[_pid]['text'] = CHECKS[_pid]['text'].rstrip() + _extra
+
 NA_REASON = 'check not built yet (planned: see DESIGN.md section 3)'
 
 
